@@ -19,9 +19,12 @@ RULE = ('seeded select lists over item kinds {alias (AS/as), aN, a[N], a.name, a
         'observed through query_table, query_csv and pandas. non-trivial iff the list has >= 2 items of different kinds; distinct = distinct query text')
 
 OTHER_PY = ["a1 + a2", "len(a1)", "'lit, with comma'", "(a1, a2)[0]", "max(a1, a2)", "[a1, a2][1]", "a1.upper()", "'-'.join([a1, (a2)])", "str(NR) + 'as x'", "a1 + ' as '",
-            "{'k': a1}['k']", "'select a1, * from b'", "a2[0:1]", "a[1] + a[2]"]
+            "{'k': a1}['k']", "'select a1, * from b'", "a2[0:1]", "a[1] + a[2]",
+            # operators that bind weaker than the `==` the AS rewrite introduces; a parenthesised tuple as a whole item (D19)
+            "a1 or a2", "not a1", "a1 if a2 else a1", "a1 and a2", "a1 in (a2, 'x')", "(a1, a2)", "lambda: a1"]
 OTHER_JS = ["a1 + a2", "a1.length", "'lit, with comma'", "[a1, a2][1]", "Math.max(1, 2)", "a1.toUpperCase()", "[a1, (a2)].join('-')", "String(NR) + 'as x'", "a1 + ' as '",
-            "'select a1, * from b'", "a2.slice(0, 1)", "a[1] + a[2]"]
+            "'select a1, * from b'", "a2.slice(0, 1)", "a[1] + a[2]",
+            "a1 || a2", "!a1", "a1 ? a2 : a1", "a1 && a2", "(a1, a2)"]
 AGGS = ["count(*)", "COUNT(1)", "max(a1)", "ARRAY_AGG(a2)", "MIN(a1)"]
 
 
